@@ -1,5 +1,6 @@
 //! Correspondence harness for engine `sieve` (property C13): drives rlib_sieve::Sieve through its public API
-//! (`new`, `min_prime`, `is_prime`, `primes`, `factorize`).  Case forms: see lean/Driver/Sieve.lean.
+//! (`new`, `min_prime`, `is_prime`, `primes`, `factorize`, every provided method of the `Iterator` that `factorize` returns).
+//! Case forms: see lean/Driver/Sieve.lean.
 #[path = "../../common/mod.rs"]
 mod common;
 use common::*;
@@ -195,8 +196,324 @@ fn factorize(s: &Sieve, n_lim: usize, n: i32) -> (String, String) {
     }
 }
 
+
+// ------------------------------------------------------------------------------------------------------------------
+// independent oracle 3: least-prime-factor table by a plain sieve of Eratosthenes (first writer wins), kept for the
+// whole process and grown on demand (an ORACLE cache; the sieve under test is still built afresh for every case)
+// ------------------------------------------------------------------------------------------------------------------
+struct Spf {
+    spf: Vec<u32>,
+    primes: Vec<i32>,
+}
+thread_local! {
+    static SPF: std::cell::RefCell<Spf> = std::cell::RefCell::new(Spf { spf: Vec::new(), primes: Vec::new() });
+}
+fn spf_build(len: usize) -> Spf {
+    let mut spf = vec![0u32; len];
+    let mut primes = Vec::new();
+    for i in 2..len {
+        if spf[i] == 0 {
+            spf[i] = i as u32;
+            primes.push(i as i32);
+            let mut m = i * i;
+            while m < len {
+                if spf[m] == 0 {
+                    spf[m] = i as u32;
+                }
+                m += i;
+            }
+        }
+    }
+    Spf { spf, primes }
+}
+fn with_spf<R>(n_lim: usize, f: impl FnOnce(&Spf) -> R) -> R {
+    SPF.with(|c| {
+        if c.borrow().spf.len() < n_lim + 1 {
+            let len = (n_lim + 1).next_power_of_two().max(1 << 17) + 1;
+            *c.borrow_mut() = spf_build(len);
+        }
+        f(&c.borrow())
+    })
+}
+
+/// summary of a freshly built sieve (raw) and the verdict of the entry-by-entry comparison of all three tables with
+/// the Eratosthenes oracle (view: `ok` / first bad entry)
+fn summary(s: &Sieve, n_lim: usize) -> (String, String) {
+    let pr = s.primes();
+    let mut hp = FNV_INIT;
+    for &p in pr.iter() {
+        hp = fnv(hp, p as i64 as u64);
+    }
+    let opt = |x: Option<&i32>| x.map(|v| v.to_string()).unwrap_or_else(|| "-".to_string());
+    let mn = match catch(|| s.min_prime(n_lim as i32)) {
+        Ok(x) => x.to_string(),
+        Err(e) => e,
+    };
+    let ip = match catch(|| s.is_prime(n_lim as i32)) {
+        Ok(x) => x.to_string(),
+        Err(e) => e,
+    };
+    let raw = format!("np={} hp={:016x} first={} last={} mnpN={} ispN={}", pr.len(), hp, opt(pr.first()), opt(pr.last()), mn, ip);
+    let view = match catch(|| {
+        with_spf(n_lim, |o| {
+            for c in 0..=n_lim {
+                let w = o.spf[c];
+                let wp = c >= 2 && w as usize == c;
+                let m = s.min_prime(c as i32);
+                let p = s.is_prime(c as i32);
+                if c >= 2 && m as i64 != w as i64 {
+                    return format!("bad mnp[{}]={} want {}", c, m, w);
+                }
+                if p != wp {
+                    return format!("bad isp[{}]={} want {}", c, p, wp);
+                }
+            }
+            let cnt = o.primes.partition_point(|&p| (p as usize) <= n_lim);
+            let want = &o.primes[..cnt];
+            if pr.as_slice() != want {
+                let k = pr.iter().zip(want.iter()).position(|(a, b)| a != b).unwrap_or(pr.len().min(want.len()));
+                return format!("bad primes[{}]={:?},want={:?},len={},want_len={}", k, pr.get(k), want.get(k), pr.len(), want.len());
+            }
+            // the list and the flags answer the same question (values the API returned, fed back in)
+            let wp_n = n_lim >= 2 && o.spf[n_lim] as usize == n_lim;
+            if pr.binary_search(&(n_lim as i32)).is_ok() != wp_n {
+                return format!("bad primes.binary_search({})", n_lim);
+            }
+            "ok".to_string()
+        })
+    }) {
+        Ok(v) => v,
+        Err(e) => e,
+    };
+    (raw, view)
+}
+
+// ------------------------------------------------------------------------------------------------------------------
+// every way of consuming an iterator of (prime, exponent) pairs: `k` calls of `next`, then each provided method of
+// `Iterator` on what is left.  Generic, so that the very same code runs on `Sieve::factorize(n)` and on
+// `Vec::into_iter()` of the trial-division factorisation (std's own iterator = the reference semantics).
+// ------------------------------------------------------------------------------------------------------------------
+type Item = (i32, i32);
+fn show_item(x: &Item) -> String {
+    format!("{}^{}", x.0, x.1)
+}
+fn show_opt(x: &Option<Item>) -> String {
+    x.as_ref().map(show_item).unwrap_or_else(|| "-".to_string())
+}
+fn fold_step(h: u64, x: Item) -> u64 {
+    h.wrapping_mul(31).wrapping_add(x.0 as i64 as u64).wrapping_mul(31).wrapping_add(x.1 as i64 as u64)
+}
+const RUNAWAY: usize = 64;
+
+/// Err = the whole record (panic of the plain `next` loop / runaway); Ok = (record without `sh=`, size_hint, items left)
+fn modes<I: Iterator<Item = Item>>(mk: &dyn Fn() -> I, k: usize) -> Result<(String, (usize, Option<usize>), usize), String> {
+    let adv = || {
+        let mut it = mk();
+        for _ in 0..k {
+            it.next();
+        }
+        it
+    };
+    let f = |g: &dyn Fn() -> String| -> String {
+        match catch(g) {
+            Ok(v) => v,
+            Err(e) => e,
+        }
+    };
+    // (1) by hand, guarded: the results of the k first calls, then `next` until None, then twice more (stays None)
+    let hand = catch(|| {
+        let mut it = mk();
+        let pre: Vec<Option<Item>> = (0..k).map(|_| it.next()).collect();
+        let mut rest = Vec::new();
+        while let Some(x) = it.next() {
+            rest.push(x);
+            if rest.len() > RUNAWAY {
+                return Err(rest);
+            }
+        }
+        let fused = it.next().is_none() && it.next().is_none();
+        Ok((pre, rest, fused))
+    });
+    let (pre, rest, fused) = match hand {
+        Err(e) => return Err(e),
+        Ok(Err(v)) => return Err(format!("runaway:{}", show_fact(&v[..4]))),
+        Ok(Ok(t)) => t,
+    };
+    let pre_s: Vec<String> = pre.iter().map(show_opt).collect();
+    let mut out = format!("pre=<{}>", pre_s.join(","));
+    out += &format!(" c={}", f(&|| show_fact(&adv().take(RUNAWAY + 1).collect::<Vec<_>>())));
+    // plain collect without the guard as well (it is what users write); the guarded run above has shown that it ends
+    let plain = f(&|| show_fact(&adv().collect::<Vec<_>>()));
+    if plain != show_fact(&rest) {
+        out += &format!("(collect={})", plain);
+    }
+    out += &format!(" h={}{}", show_fact(&rest), if fused { "" } else { "!unfused" });
+    out += &format!(" n={}", f(&|| adv().count().to_string()));
+    out += &format!(" l={}", f(&|| show_opt(&adv().last())));
+    out += &format!(" f={}", f(&|| adv().fold(7u64, fold_step).to_string()));
+    out += &format!(
+        " e={}",
+        f(&|| {
+            let mut h = 7u64;
+            adv().for_each(|x| h = fold_step(h, x));
+            h.to_string()
+        })
+    );
+    out += &format!(" s={}", f(&|| adv().map(|x| x.1).sum::<i32>().to_string()));
+    out += &format!(" p={}", f(&|| adv().map(|x| x.1 + 1).product::<i32>().to_string()));
+    out += &format!(" mx={}", f(&|| show_opt(&adv().max())));
+    out += &format!(" mn={}", f(&|| show_opt(&adv().min())));
+    out += &format!(" xk={}", f(&|| show_opt(&adv().max_by_key(|x| x.1))));
+    out += &format!(" nk={}", f(&|| show_opt(&adv().min_by_key(|x| x.1))));
+    out += &format!(" rd={}", f(&|| show_opt(&adv().reduce(|a, b| (b.0, a.1 + b.1)))));
+    out += &format!(" fd={}", f(&|| show_opt(&adv().find(|x| x.1 >= 2))));
+    out += &format!(" ps={}", f(&|| adv().position(|x| x.1 == 1).map(|v| v.to_string()).unwrap_or_else(|| "-".to_string())));
+    out += &format!(" an={}", f(&|| adv().any(|x| x.0 > 1000).to_string()));
+    out += &format!(" al={}", f(&|| adv().all(|x| x.1 == 1).to_string()));
+    out += &format!(
+        " pt={}",
+        f(&|| {
+            let (a, b): (Vec<Item>, Vec<Item>) = adv().partition(|x| x.1 % 2 == 1);
+            format!("{}+{}", show_fact(&a), show_fact(&b))
+        })
+    );
+    out += &format!(
+        " uz={}",
+        f(&|| {
+            let (a, b): (Vec<i32>, Vec<i32>) = adv().unzip();
+            format!("{:?}+{:?}", a, b).replace(' ', "")
+        })
+    );
+    for j in 0..2usize {
+        out += &format!(
+            " n{}={}",
+            j,
+            f(&|| {
+                let mut it = adv();
+                let x = it.nth(j);
+                format!("{}>{}", show_opt(&x), show_fact(&it.take(RUNAWAY + 1).collect::<Vec<_>>()))
+            })
+        );
+    }
+    out += &format!(" sk={}", f(&|| show_fact(&adv().skip(1).take(RUNAWAY + 1).collect::<Vec<_>>())));
+    out += &format!(" st={}", f(&|| show_fact(&adv().step_by(2).take(RUNAWAY + 1).collect::<Vec<_>>())));
+    out += &format!(
+        " tk={}",
+        f(&|| {
+            let mut it = adv();
+            let a: Vec<Item> = it.by_ref().take(1).collect();
+            format!("{}+{}", show_fact(&a), it.count())
+        })
+    );
+    out += &format!(" eq={}", f(&|| adv().eq(rest.iter().copied()).to_string()));
+    let sh = match catch(|| adv().size_hint()) {
+        Ok(v) => v,
+        Err(_) => (usize::MAX, Some(0)),
+    };
+    Ok((out, sh, rest.len()))
+}
+
+/// one record of an `itm` line: (raw, view)
+fn modes_record(s: &Sieve, n_lim: usize, k: usize, n: i32) -> (String, String) {
+    match modes(&|| s.factorize(n), k) {
+        Err(e) => (e.clone(), e),
+        Ok((rec, sh, left)) => {
+            // size_hint: the property fixes no value, only that the pair brackets the number of items left
+            let sh_ok = sh.0 <= left && sh.1.map_or(true, |u| left <= u);
+            let sh_view = if sh_ok { "ok".to_string() } else { format!("bad({},{:?};left={})", sh.0, sh.1, left) };
+            let raw = format!("{} sh={}", rec, sh_view);
+            let in_dom = n >= 1 && (n as usize) <= n_lim;
+            let mut view = raw.clone();
+            if in_dom {
+                let want: Vec<Item> = oracle_factorize(n as u64).iter().map(|&(p, e)| (p as i32, e as i32)).collect();
+                match modes(&|| want.clone().into_iter(), k) {
+                    Ok((w, _, _)) if w == rec => {}
+                    _ => view = format!("oracle-mismatch:{}", view),
+                }
+            }
+            (raw, view)
+        }
+    }
+}
+
+/// `live N1 N2 n1 n2 n3`: two sieves and three iterators alive at the same time, advanced in turn
+fn live(a_lim: usize, b_lim: usize, n1: i32, n2: i32, n3: i32) -> (String, String) {
+    let a = Sieve::new(a_lim);
+    let b = Sieve::new(b_lim);
+    let mut its = [a.factorize(n1), b.factorize(n2), a.factorize(n3)];
+    let mut got: [Vec<Item>; 3] = [Vec::new(), Vec::new(), Vec::new()];
+    let mut done = [false; 3];
+    let mut steps = 0;
+    // values the iterators return are fed back into the accessors of BOTH tables between the `next` calls
+    let mut fb: Option<String> = None;
+    while done.iter().any(|d| !d) && steps < RUNAWAY {
+        for j in 0..3 {
+            if !done[j] {
+                match its[j].next() {
+                    Some(x) => {
+                        got[j].push(x);
+                        for (t, lim) in [(&a, a_lim), (&b, b_lim)] {
+                            if x.0 >= 2 && (x.0 as usize) <= lim && fb.is_none() && !(t.is_prime(x.0) && t.min_prime(x.0) == x.0) {
+                                fb = Some(format!("bad({}:is_prime={},min_prime={})", x.0, t.is_prime(x.0), t.min_prime(x.0)));
+                            }
+                        }
+                    }
+                    None => done[j] = true,
+                }
+            }
+        }
+        steps += 1;
+    }
+    let facts = format!("a={} b={} c={}", show_fact(&got[0]), show_fact(&got[1]), show_fact(&got[2]));
+    let (ra, va) = summary(&a, a_lim);
+    let (rb, vb) = summary(&b, b_lim);
+    drop(its);
+    drop(a);
+    let (rb2, vb2) = summary(&b, b_lim);
+    (
+        format!("{} A:{} B:{} B2:{}", facts, ra, rb, rb2),
+        format!("{} A:{} B:{} B2:{} fb={}", facts, va, vb, vb2, fb.unwrap_or_else(|| "ok".to_string())),
+    )
+}
+
 fn run_case(line: &str) -> String {
-    let toks: Vec<&str> = line.split_whitespace().collect();
+    let parts: Vec<&str> = line.split(';').map(|p| p.trim()).collect();
+    let toks: Vec<&str> = parts[0].split_whitespace().collect();
+    if toks.first() == Some(&"itm") {
+        let (n_lim, k) = match (toks.get(1).and_then(|t| t.parse::<usize>().ok()), toks.get(2).and_then(|t| t.parse::<usize>().ok())) {
+            (Some(a), Some(b)) => (a, b),
+            _ => return "I bad-op | V bad-op".to_string(),
+        };
+        let mut ns: Vec<i32> = Vec::new();
+        for p in &parts[1..] {
+            match p.parse::<i64>() {
+                Ok(v) => ns.push(v as i32),
+                Err(_) => return "I bad-op | V bad-op".to_string(),
+            }
+        }
+        let s = &match catch(|| Sieve::new(n_lim)) {
+            Ok(s) => s,
+            Err(e) => return out1(&e),
+        };
+        let rv: Vec<(String, String)> = ns.iter().map(|&n| modes_record(s, n_lim, k, n)).collect();
+        let raws: Vec<&str> = rv.iter().map(|x| x.0.as_str()).collect();
+        let views: Vec<&str> = rv.iter().map(|x| x.1.as_str()).collect();
+        return out2(&raws.join(" / "), &views.join(" / "));
+    }
+    if toks.first() == Some(&"live") {
+        let v: Vec<i64> = toks[1..].iter().filter_map(|t| t.parse().ok()).collect();
+        if v.len() != 5 || toks.len() != 6 || v[0] < 0 || v[1] < 0 {
+            return "I bad-op | V bad-op".to_string();
+        }
+        let in_dom = v[2] >= 1 && v[2] <= v[0] && v[3] >= 1 && v[3] <= v[1] && v[4] >= 1 && v[4] <= v[0];
+        if !in_dom {
+            return out1("out-of-domain");
+        }
+        return match catch(|| live(v[0] as usize, v[1] as usize, v[2] as i32, v[3] as i32, v[4] as i32)) {
+            Ok((r, w)) => out2(&r, &w),
+            Err(e) => out1(&e),
+        };
+    }
     if toks.len() < 2 {
         return "I bad-op | V bad-op".to_string();
     }
@@ -210,6 +527,10 @@ fn run_case(line: &str) -> String {
         Err(e) => return out1(&e),
     };
     match toks[0] {
+        "new" => {
+            let (raw, view) = summary(s, n_lim);
+            out2(&raw, &view)
+        }
         "tab" | "big" => match catch(|| observe(s, n_lim, toks[0] == "big")) {
             Ok(t) => out2(&t.raw, &t.view),
             Err(e) => out1(&e),
@@ -367,8 +688,115 @@ fn fact_samples(rng: &mut SplitMix64, lim: u64, count: usize, st: &mut Stats) ->
     v
 }
 
+
+fn primes_between(lo: u64, hi: u64) -> Vec<u64> {
+    (lo..=hi).filter(|&x| is_prime_u(x)).collect()
+}
+
+/// arguments at which an `i32` intermediate one step beyond the data (p^(e+1), p*p, n*p) no longer fits although n does:
+/// squares of primes q >= 1291 (q^3 >= 2^31) with small cofactors, the largest power of every small prime, multiples of
+/// primes above 46340 (p^2 >= 2^31), semiprimes of two primes next to sqrt(lim), values next to the limit
+fn overflow_edge_samples(rng: &mut SplitMix64, lim: u64, all_squares: bool, st: &mut Stats) -> Vec<u64> {
+    let mut v: Vec<u64> = Vec::new();
+    let mut r = 1u64;
+    while (r + 1) * (r + 1) <= lim {
+        r += 1;
+    }
+    if r >= 1291 {
+        let qs = primes_between(1291, r);
+        let pick: Vec<u64> = if all_squares {
+            qs.clone()
+        } else {
+            let mut t: Vec<u64> = qs.iter().take(10).cloned().collect();
+            t.extend(qs.iter().rev().take(10).cloned());
+            for _ in 0..16 {
+                t.push(*rng.pick(&qs));
+            }
+            t
+        };
+        for &q in &pick {
+            v.push(q * q);
+            st.bump("it_square_of_prime_ge_1291");
+        }
+        for m in 2..=7u64 {
+            let qm: Vec<u64> = qs.iter().cloned().filter(|q| q * q * m <= lim).collect();
+            if qm.is_empty() {
+                continue;
+            }
+            let cnt = if all_squares { qm.len().min(40) } else { 3 };
+            for t in 0..cnt {
+                let q = if t == 0 { qm[0] } else if t == 1 { qm[qm.len() - 1] } else { *rng.pick(&qm) };
+                v.push(q * q * m);
+                st.bump("it_square_of_prime_ge_1291_times_m");
+            }
+        }
+    }
+    for p in primes_between(2, 230) {
+        if p > lim {
+            break;
+        }
+        let mut x = p;
+        while x * p <= lim {
+            x *= p;
+        }
+        v.push(x);
+        st.bump("it_largest_power_of_small_prime");
+        if x * 2 <= lim {
+            v.push(x * 2);
+        }
+    }
+    if lim > 46341 {
+        let mut p = lim;
+        let mut found = 0;
+        while p > 46340 && found < 6 {
+            if is_prime_u(p) {
+                v.push(p);
+                found += 1;
+                st.bump("it_prime_next_to_limit");
+            }
+            p -= 1;
+        }
+        for &q in &[46337u64, 46349, 46351, 65521, 65537] {
+            for m in 1..=3u64 {
+                if q * m <= lim {
+                    v.push(q * m);
+                    st.bump("it_multiple_of_prime_near_46341");
+                }
+            }
+        }
+    }
+    let near: Vec<u64> = primes_between(r.saturating_sub(60).max(2), r);
+    for w in near.windows(2) {
+        v.push(w[0] * w[1]);
+        st.bump("it_semiprime_next_to_sqrt");
+    }
+    for d in 0..6u64 {
+        if lim > d {
+            v.push(lim - d);
+        }
+    }
+    v
+}
+
+fn emit_itm(emit: &mut dyn FnMut(String), st: &mut Stats, n_lim: u64, k: usize, ns: &[u64], per_line: usize) {
+    for chunk in ns.chunks(per_line) {
+        let strs: Vec<String> = chunk.iter().map(|x| x.to_string()).collect();
+        emit(format!("itm {} {} ; {}", n_lim, k, strs.join(" ; ")));
+        st.bump("itm_lines");
+        st.add("itm_records", chunk.len() as u64);
+        st.add(&format!("itm_records_after_{}_next", k), chunk.len() as u64);
+    }
+}
+
 fn gen(args: &Args, emit: &mut dyn FnMut(String), st: &mut Stats) {
     let thorough = args.tier == "thorough";
+    // `--profile debug` (checks/C13.py: harness_args): the same stream, thinned out - an unoptimised build of the crate and of
+    // the oracles is 10-20 times slower; what the debug build adds is debug_assert! / cfg(debug_assertions) code in the crate
+    let dbg = args.extra.get("profile").map(|p| p == "debug").unwrap_or(false);
+    if dbg {
+        st.bump("debug_profile_thinned_stream");
+    }
+    let thorough_full = thorough && !dbg;
     let mut rng = SplitMix64::new(args.seed ^ 0xC13);
     // (0) state kept between constructions in one process (caches, globals) must not leak: a large table, then smaller
     //     prime / composite limits cut out of its range, repeats, and growth again
@@ -385,8 +813,9 @@ fn gen(args: &Args, emit: &mut dyn FnMut(String), st: &mut Stats) {
     }
     // (1) every limit in [0, 3000]: all tables, all n <= N (hash + entry-by-entry oracle comparison).  Zig-zag order
     //     3000, 0, 2999, 1, …: every construction is preceded by a much larger or much smaller one
-    for k in 0..=1500usize {
-        let pair = if k == 1500 { vec![1500] } else { vec![3000 - k, k] };
+    let top: usize = if dbg { 600 } else { 3000 };
+    for k in 0..=top / 2 {
+        let pair = if k == top / 2 { vec![top / 2] } else { vec![top - k, k] };
         for n in pair {
             emit(format!("tab {}", n));
             st.bump("tab_every_limit");
@@ -396,6 +825,9 @@ fn gen(args: &Args, emit: &mut dyn FnMut(String), st: &mut Stats) {
     // (1b) limits just above 2^17 = 2 * 65536 (the first composites whose cofactor or prime does not fit 16 bits:
     //      131074 = 2 * 65537) and next to the first prime square above it (367^2 = 134689)
     for n in [131071usize, 131074, 131075, 134688, 134689, 134690] {
+        if dbg && n != 131074 {
+            continue;
+        }
         emit(format!("tab {}", n));
         st.bump("tab_above_2_17");
         st.add("table_entries", 3 * (n as u64 + 1));
@@ -423,8 +855,8 @@ fn gen(args: &Args, emit: &mut dyn FnMut(String), st: &mut Stats) {
         st.add("full_tables", 3);
     }
     // (3) factorize: every n <= 3000 on the big table and on the tightest table (N = n)
-    for n in 1..=3000u64 {
-        emit(format!("fact 3000 {}", n));
+    for n in 1..=(top as u64) {
+        emit(format!("fact {} {}", top, n));
         emit(format!("fact {} {}", n, n));
         st.add("fact_exhaustive", 2);
     }
@@ -448,7 +880,7 @@ fn gen(args: &Args, emit: &mut dyn FnMut(String), st: &mut Stats) {
         st.add("fact_out_of_domain_or_edge", 3);
     }
     // (5) sampled factorisations on larger tables
-    let limits: Vec<u64> = if thorough { vec![100_000, 1_000_000, 10_000_000] } else { vec![100_000] };
+    let limits: Vec<u64> = if thorough_full { vec![100_000, 1_000_000, 10_000_000] } else if thorough { vec![100_000, 1_000_000] } else { vec![100_000] };
     for lim in limits {
         let per_line = 500;
         let lines = if thorough { 8 } else { 2 };
@@ -460,14 +892,166 @@ fn gen(args: &Args, emit: &mut dyn FnMut(String), st: &mut Stats) {
         }
     }
     // (6) larger limits
-    let extra = if thorough { 150 } else { 6 };
+    let extra = if dbg { 2 } else if thorough { 150 } else { 6 };
     for _ in 0..extra {
         let n = 3001 + rng.below(if thorough { 300_000 } else { 60_000 });
         emit(format!("tab {}", n));
         st.bump("tab_random_limit");
         st.add("table_entries", 3 * (n + 1));
     }
-    if thorough {
+    // (7) limits, densely: construction + summary + all three tables against the Eratosthenes oracle (`new N`).
+    //     every limit up to 2^12 (thorough: 2^15), then a fixed stride up to 2^17 (quick 16, thorough 5: a run of that many
+    //     consecutive bad limits anywhere below 2^17 cannot be missed), in zig-zag order (largest, smallest, …: every
+    //     construction follows a much larger / much smaller one in the same process), then special limits
+    {
+        let dense_to: usize = if thorough_full { 1 << 15 } else { 1 << 12 };
+        let stride: usize = if dbg { if thorough { 127 } else { 1021 } } else if thorough { 5 } else { 16 };
+        let mut lims: Vec<usize> = (3001..=dense_to).collect();
+        let mut x = dense_to + 1 + (rng.below(stride as u64) as usize);
+        while x <= (1 << 17) {
+            lims.push(x);
+            x += stride;
+        }
+        st.add("new_every_limit", (dense_to - 3000) as u64);
+        st.add("new_stride_limits", (lims.len() - (dense_to - 3000)) as u64);
+        let (mut i, mut j) = (0usize, lims.len());
+        while i < j {
+            j -= 1;
+            emit(format!("new {}", lims[j]));
+            if i < j {
+                emit(format!("new {}", lims[i]));
+            }
+            i += 1;
+        }
+        let mut special: Vec<usize> = vec![0, 1, 2, 3, 4, 63, 64, 65, 127, 128, 129, 255, 256, 257, 30029, 30030, 30031, 65520, 65521, 65522];
+        for k in 9..=17u32 {
+            for d in [-1i64, 0, 1] {
+                special.push(((1i64 << k) + d) as usize);
+            }
+        }
+        for p in primes_between(2, 362) {
+            for d in [-1i64, 0, 1] {
+                special.push(((p * p) as i64 + d) as usize);
+            }
+        }
+        for _ in 0..(if dbg { 10 } else if thorough { 400 } else { 60 }) {
+            // a prime limit, its neighbours, and a multiple of 64
+            let mut q = 4096 + rng.below((1 << 17) - 4096);
+            while !is_prime_u(q) {
+                q -= 1;
+            }
+            special.push(q as usize);
+            special.push(q as usize + 1);
+            special.push((q as usize / 64) * 64);
+        }
+        for n in special {
+            if dbg && n > 20_000 && !(n + 1).is_power_of_two() && !n.is_power_of_two() && !(n - 1).is_power_of_two() {
+                continue;
+            }
+            emit(format!("new {}", n));
+            st.bump("new_special_limit");
+        }
+    }
+    // (8) every way of consuming `factorize(n)` (`itm N k ; n…`: k calls of next, then each provided Iterator method)
+    {
+        // (8a) exhaustive small scope: every n <= 640 after k = 0..3 calls of next, on one table and on tight tables
+        let all: Vec<u64> = (1..=640).collect();
+        for k in 0..=3usize {
+            emit_itm(emit, st, 640, k, &all, 64);
+        }
+        for (c, chunk) in all.chunks(64).enumerate() {
+            emit_itm(emit, st, *chunk.last().unwrap(), c % 3, chunk, 64);
+        }
+        // (8b) sampled arguments on 10^5 and just above 2^17
+        for k in 0..=2usize {
+            let v = fact_samples(&mut rng, 100_000, 128, st);
+            emit_itm(emit, st, 100_000, k, &v, 64);
+        }
+        let mut v: Vec<u64> = vec![65536, 65537, 131072, 131073, 131074, 131076, 134689, 2 * 65539, 65521 * 2, 139999, 140000];
+        v.extend(overflow_edge_samples(&mut rng, 140_000, false, st));
+        emit_itm(emit, st, 140_000, 0, &v, 64);
+        // out of the domain (n = 0, n > N): a short stream
+        emit("itm 10 0 ; 0 ; 11 ; 6".to_string());
+        emit("itm 10 2 ; 10 ; 12".to_string());
+        st.add("itm_out_of_domain_lines", 2);
+        // (8c) large arguments: limit 4*10^6 (debug build 2*10^6; thorough 10^7, also 10^6, every square of a prime >= 1291, and
+        //      223^3 on 11.1M)
+        let big: u64 = if dbg { 2_000_000 } else if thorough { 10_000_000 } else { 4_000_000 };
+        let mut v = overflow_edge_samples(&mut rng, big, thorough_full, st);
+        v.extend(fact_samples(&mut rng, big, if thorough_full { 600 } else { 100 }, st));
+        if dbg {
+            v.truncate(if thorough { 192 } else { 64 });
+        }
+        emit_itm(emit, st, big, 0, &v, 64);
+        let w = overflow_edge_samples(&mut rng, big, false, st);
+        if !dbg {
+            emit_itm(emit, st, big, 1, &w[..w.len().min(64)], 64);
+            emit_itm(emit, st, big, 2, &w[w.len().saturating_sub(64)..], 64);
+        }
+        if thorough_full {
+            for k in 0..=2usize {
+                let mut v = overflow_edge_samples(&mut rng, 1_000_000, false, st);
+                v.extend(fact_samples(&mut rng, 1_000_000, 300, st));
+                emit_itm(emit, st, 1_000_000, k, &v, 64);
+            }
+            let mut v: Vec<u64> = vec![223 * 223 * 223, 11_100_000, 2 * 2357 * 2357, 3331 * 3331, 3329 * 3331];
+            v.extend(overflow_edge_samples(&mut rng, 11_100_000, false, st));
+            emit_itm(emit, st, 11_100_000, 0, &v, 64);
+        }
+    }
+    // (9) limits above 2^17 for `new` (the driver's cached table is the one of (8c) by now)
+    {
+        let mut v: Vec<u64> = if dbg {
+            vec![(1 << 17) + 2]
+        } else if thorough {
+            vec![(1 << 20) - 1, 1 << 20, (1 << 20) + 1, 999_983, 1_000_000, 9_999_991, 10_000_000]
+        } else {
+            let mut q = 4_000_000u64;
+            while !is_prime_u(q) {
+                q -= 1;
+            }
+            vec![(1 << 20) - 1, 1 << 20, (1 << 20) + 1, 999_983, 1_000_000, q, 4_000_000]
+        };
+        for _ in 0..(if dbg { 1 } else if thorough { 120 } else { 8 }) {
+            v.push((1 << 17) + rng.below((1 << 20) - (1 << 17)));
+        }
+        if thorough_full {
+            for _ in 0..12 {
+                v.push((1 << 20) + rng.below(9_000_000));
+            }
+        }
+        for n in v {
+            emit(format!("new {}", n));
+            st.bump("new_limit_above_2_17");
+        }
+    }
+    // (10) two sieves and three iterators alive at once, advanced in turn (state shared between objects must not leak)
+    for t in 0..(if thorough { 400 } else { 60 }) {
+        let a = if t % 20 == 7 { 131_073 + rng.below(3000) } else { 2 + rng.below(3000) };
+        let b = match t % 4 {
+            0 => a,
+            1 => 2 + rng.below(a),
+            _ => 2 + rng.below(3000),
+        };
+        let pickn = |rng: &mut SplitMix64, lim: u64| match rng.below(3) {
+            0 => lim - rng.below(lim.min(4)),
+            1 => {
+                let mut x = 1u64;
+                while x * 2 <= lim && !rng.chance(1, 9) {
+                    x *= *rng.pick(&[2u64, 2, 3, 5]);
+                    if x > lim {
+                        x /= 5;
+                    }
+                }
+                x.clamp(1, lim)
+            }
+            _ => 1 + rng.below(lim),
+        };
+        let (n1, n2, n3) = (pickn(&mut rng, a), pickn(&mut rng, b), pickn(&mut rng, a));
+        emit(format!("live {} {} {} {} {}", a, b, n1, n2, n3));
+        st.bump("live_two_sieves_three_iterators");
+    }
+    if thorough_full {
         for n in [999_999u64, 1_000_000] {
             emit(format!("tab {}", n));
             st.bump("tab_1e6_vs_model");
